@@ -1,6 +1,6 @@
 (* C03 — mask: exact residual signature after n positionals and named arguments. *)
 From Sigtools.Model Require Import Base Bind Roles Algebra.
-From Sigtools.Proofs Require Import SmallModel Basics.
+From Sigtools.Proofs Require Import SmallModel Basics Deciders.
 
 Theorem C03_wf s n names0 h r : mask s n names0 h = Ok r -> validate (params r) = true.
 Proof. exact (mask_wf s n names0 h r). Qed.
@@ -13,3 +13,20 @@ Print Assumptions C03_only_value_errors.
 Theorem C03_small_model sigs s c : In s sigs -> accepts s (rep_for sigs c) = accepts s c.
 Proof. exact (accepts_rep sigs s c). Qed.
 Print Assumptions C03_small_model.
+
+(* the exactness / raise-condition deciders used on the implementation's
+   results are complete for ALL calls *)
+Theorem C03_exact_decider_complete r s n names0 :
+  ~ In (fresh_for (dedup (all_names [r; s]))) names0 ->
+  mask_exact_cex r s n names0 = None ->
+  forall c, disjointb (kws c) names0 = true -> noncolliding c r [s] = true ->
+            accepts r c = accepts s (shift_call n names0 c).
+Proof. exact (mask_exact_cex_complete r s n names0). Qed.
+Print Assumptions C03_exact_decider_complete.
+
+Theorem C03_none_decider_complete s n names0 :
+  ~ In (fresh_for (dedup (all_names [s]))) names0 ->
+  mask_none_cex s n names0 = None ->
+  forall c, disjointb (kws c) names0 = true -> accepts s (shift_call n names0 c) = false.
+Proof. exact (mask_none_cex_complete s n names0). Qed.
+Print Assumptions C03_none_decider_complete.
